@@ -446,10 +446,13 @@ def make_async_handler(rec, hdef, bus):
                     await _sleep(rec, op[1])
                     rec.log('HOp', act=act, op='s')
                 elif k == 'g':  # gate: yield until the trace has at least op[1] lines (spec->code alignment)
-                    for _ in range(200):
+                    await asyncio.sleep(0)
+                    for _ in range(300):
                         if len(rec.lines) >= op[1]:
                             break
                         await asyncio.sleep(0)
+                elif k == 'logop':
+                    rec.log('HOp', act=act, op=op[1])
                 elif k == 'idle':  # wait_until_idle(timeout) on another bus from inside a handler (always with a timeout)
                     rec.sleepers += 1
                     try:
@@ -543,7 +546,7 @@ async def driver(rec, i, ops, state):
         elif k == 's':
             await _sleep(rec, op[1])
         elif k == 'g':
-            for _ in range(200):
+            for _ in range(300):
                 if len(rec.lines) >= op[1]:
                     break
                 await asyncio.sleep(0)
